@@ -1,5 +1,5 @@
 (* Extract/RunsConn.v — run mode for the connection model (C07-C12, C14).  Glue only. *)
-From FV Require Import Base.Bytes Gen.Generated Parser.ReqModel Parser.StreamModel Async.Conn Extract.Runs Extract.RunsReq.
+From FV Require Import Base.Bytes Gen.Generated Codec.Header Parser.ReqModel Parser.ReqWire Parser.StreamModel Async.Conn Extract.Runs Extract.RunsReq.
 
 Fixpoint mk_segs (table : list N) (wire : bytes) : list (N * N * bytes) :=
   match table with
@@ -22,4 +22,47 @@ Definition run_conn_run (a : args) : args :=
   | ODeadlock => [[1; epoch w]; cnt; wlog w] ++ rev (events w) ++ tail
   | OPanic n => [[18446744073710440504]; cnt; wlog w] ++ rev (events w) ++ tail
   | OFuel => [[888887]; cnt; wlog w] ++ rev (events w) ++ tail
+  end.
+
+(* req_new <cfg: B, max_conns, vectored, preselect> <rscript> <wscript> <wire> <script>: the embedding application parses the preamble itself
+   (greedy reads, replies written at once), converts, optionally selects a stream on the stream parser BEFORE wrapping it with the public
+   Request::new, runs the handler script and calls Request::close itself (harness/src/conn.rs req_new) *)
+Definition run_req_new (a : args) : args :=
+  let cfg := arg a 0 in
+  let B := nth 0 cfg 0 in let maxc := N.max 1 (nth 1 cfg 0) in
+  let vect := negb (nth 2 cfg 0 =? 0) in let presel := nth 3 cfg 0 in
+  let wire := arg a 3 in let script := arg a 4 in
+  match run_schedule norm_impl maxc (new_parser B) wire [] with
+  | SOk p1 true unfed out =>
+    match into_stream_parser p1 with
+    | inl s0 =>
+      match (if presel =? 0 then SetOk s0 else set_stream s0 (Some presel)) with
+      | SetOk s1 =>
+        let rq := sreq s1 in
+        let r0 := mkR s1 (len (role_input_streams (r_role rq)) <=? 1) false false in
+        let w0 := mkW (arg a 1) (arg a 2) [(0, 0, unfed)] out (len wire - len unfed) 1 0 false vect [] in
+        let w1 := w_ev w0 [300; if rwriteable r0 then 1 else 0; stream_code (stream s1)] in
+        let fin (o : outcome) (w : world) (code : list N) : args :=
+          let cnt := [consumed w; len (arg a 1) - len (rscript w); len (arg a 2) - len (wscript w)] in
+          match o with
+          | ORet => [[0; epoch w] ++ code; cnt; wlog w] ++ rev (events w)
+          | ODeadlock => [[1; epoch w]; cnt; wlog w] ++ rev (events w)
+          | OPanic n => [[18446744073710440504]; cnt; wlog w] ++ rev (events w)
+          | OFuel => [[888887]; cnt; wlog w] ++ rev (events w)
+          end in
+        match run_handler maxc (length script + 2) script r0 w1 with
+        | Halt o w2 => fin o w2 []
+        | Ok (inl (d, c), r1) w2 =>
+          match do_close maxc r1 d c w2 with
+          | Halt o w3 => fin o w3 []
+          | Ok (inl _) w3 => fin ORet w3 [10]
+          | Ok (inr k) w3 => fin ORet w3 [20 + k]
+          end
+        | Ok (inr k, _) w2 => fin ORet w2 [40 + k]
+        end
+      | _ => [[3]]
+      end
+    | inr _ => [[3]]
+    end
+  | _ => [[3]]
   end.
